@@ -14,10 +14,12 @@ import (
 	"encoding/json"
 	"fmt"
 	"io"
+	"os"
 	"path"
 	"sort"
 	"strings"
 
+	"chainguard.dev/apko/pkg/build"
 	"chainguard.dev/apko/pkg/build/types"
 	"chainguard.dev/apko/pkg/sbom/generator/spdx"
 )
@@ -89,7 +91,25 @@ func sbGenE2E(r *Rng, tier string) any {
 		apks = append(apks, sbApk{Name: nm, Version: v, Checksum: sbHex(r, 40)})
 	}
 	// embedded SBOMs shipped by the packages themselves
-	fs := sbGenFS(r, apks, 3)
+	sbShipSBOMs(r, pkgs, 1, sbGenFS(r, apks, 3))
+	sbDedupDirs(pkgs)
+	e.Pkgs = pkgs
+	for _, p := range pkgs[1:] {
+		if r.Chance(85) {
+			e.World = append(e.World, p.Name)
+		}
+	}
+	if len(e.World) == 0 {
+		e.World = []string{pkgs[1].Name}
+	}
+	if r.Chance(30) {
+		sbGenBase(r, e)
+	}
+	return &sbCase{Kind: "e2e", E2E: e}
+}
+
+// sbShipSBOMs puts every generated /var/lib/db/sbom entry into one of pkgs[first:].
+func sbShipSBOMs(r *Rng, pkgs []SPkg, first int, fs []sbEntry) {
 	for _, ent := range fs {
 		if ent.Kind == "dir" {
 			continue // a directory at the SBOM path fails the build; covered by the direct cases
@@ -103,8 +123,8 @@ func sbGenE2E(r *Rng, tier string) any {
 			content = string(b)
 		}
 		// the owner is the package whose name is the longest prefix of the stem (any installed package would do)
-		owner := 1 + r.Intn(len(pkgs)-1)
-		for i := 1; i < len(pkgs); i++ {
+		owner := first + r.Intn(len(pkgs)-first)
+		for i := first; i < len(pkgs); i++ {
 			if strings.HasPrefix(ent.Stem, pkgs[i].Name) {
 				owner = i
 			}
@@ -114,7 +134,10 @@ func sbGenE2E(r *Rng, tier string) any {
 			SFile{Path: "var/lib/db", Type: "dir", Mode: 0o755}, SFile{Path: "var/lib/db/sbom", Type: "dir", Mode: 0o755},
 			SFile{Path: "var/lib/db/sbom/" + ent.Stem + ".spdx.json", Type: "file", Mode: 0o644, Content: content})
 	}
-	// de-duplicate directory entries inside one package
+}
+
+// sbDedupDirs drops repeated directory entries inside one package.
+func sbDedupDirs(pkgs []SPkg) {
 	for i := range pkgs {
 		var fl []SFile
 		have := map[string]bool{}
@@ -127,16 +150,6 @@ func sbGenE2E(r *Rng, tier string) any {
 		}
 		pkgs[i].Files = fl
 	}
-	e.Pkgs = pkgs
-	for _, p := range pkgs[1:] {
-		if r.Chance(85) {
-			e.World = append(e.World, p.Name)
-		}
-	}
-	if len(e.World) == 0 {
-		e.World = []string{pkgs[1].Name}
-	}
-	return &sbCase{Kind: "e2e", E2E: e}
 }
 
 // ---- reading the build outputs ----
@@ -285,6 +298,8 @@ type sbArtifacts struct {
 	Get       func(digest string) ([]byte, bool)
 	ArchSBOM  func(apkArch, manifestDigest string) ([]byte, bool)
 	IndexSBOM func(indexDigest string) ([]byte, bool)
+	// built on top of a base image: apk architecture -> number of leading layers that are the base image's (nil = none)
+	BaseLayers map[string]int
 }
 
 func sbFlatOf(fs map[string]*gluelayerEntry) *sbFlat {
@@ -333,14 +348,29 @@ func sbJudgeArtifacts(archs []string, vcs string, desc string, art sbArtifacts, 
 			return fail("layer unreadable: " + err.Error())
 		}
 		flat := sbFlatOf(fs)
+		// what the build's own file system held: the layers this build produced (everything without a base image)
+		own := flat
+		if nb := art.BaseLayers[a]; nb > 0 {
+			if nb >= len(im.Blobs) {
+				steps = append(steps, fail(fmt.Sprintf("%s: the base image has %d layer(s), the image built on top of it %d", a, nb, len(im.Blobs)))...)
+				continue
+			}
+			top := *im
+			top.Blobs = im.Blobs[nb:]
+			tfs, err := gluelayerFlatten(&top)
+			if err != nil {
+				return fail("layer unreadable: " + err.Error())
+			}
+			own = sbFlatOf(tfs)
+		}
 		dc := &sbCase{Kind: "direct", ImageDigest: md}
 		for _, l := range im.Man.Layers {
 			alg, hx, _ := strings.Cut(l.Digest, ":")
 			dc.Layers = append(dc.Layers, sbHash{alg, hx})
 		}
 		dc.Apks = sbParseInstalled(flat.files["lib/apk/db/installed"])
-		dc.OSVersion = sbOSVersion(flat)
-		dc.FS = sbSbomDir(flat)
+		dc.OSVersion = sbOSVersion(own)
+		dc.FS = sbSbomDir(own)
 		sb, ok := art.ArchSBOM(a, md)
 		if !ok {
 			steps = append(steps, fail("no SBOM for "+a+" ("+md+")")...)
@@ -360,7 +390,7 @@ func sbJudgeArtifacts(archs []string, vcs string, desc string, art sbArtifacts, 
 		}
 		steps = append(steps, Step{Line: genLine(dc, goRes), Go: goRes, Mode: "verdict",
 			Desc: desc + fmt.Sprintf(" arch=%s (%s): image %s, %d layers, installed [%s], %d files in /var/lib/db/sbom", a, im.Plat, md, len(dc.Layers), descApks(dc.Apks), len(dc.FS)),
-			Tags: append(genTags(dc, goRes, d, pre), pre+"plat:"+im.Plat), Trivial: d == nil})
+			Tags: append(append(genTags(dc, goRes, d, pre), pre+"plat:"+im.Plat), sbBaseTags(art, a, pre, flat, own, dc)...), Trivial: d == nil})
 	}
 	// the index document: images in the order of GenerateIndexSBOM (sorted by architecture string)
 	sort.Slice(order, func(i, j int) bool { return order[i].arch.String() < order[j].arch.String() })
@@ -413,10 +443,23 @@ func runSbomE2E(c *sbCase) []Step {
 		ic.Archs = append(ic.Archs, types.ParseArchitecture(e.Archs[0]))
 		cliArchs = nil
 	}
-	desc := fmt.Sprintf("apko build world=%v archs=%v layering-budget=%d vcs=%q (%d packages in the repository)", e.World, e.Archs, e.Budget, e.VCS, len(e.Pkgs))
+	desc := fmt.Sprintf("apko build world=%v archs=%v layering-budget=%d vcs=%q (%d packages in the repository)%s", e.World, e.Archs, e.Budget, e.VCS, len(e.Pkgs), sbBaseDesc(e))
+	repoDir, lockPath := "", ""
+	var baseLayers map[string]int
+	var pubExtra []build.Option
+	if len(e.Base) > 0 {
+		prep, why := sbPrepareBase(e, ic, repo)
+		defer os.RemoveAll(prep.Work)
+		if why != "" {
+			kind, _, _ := strings.Cut(why, ":")
+			return []Step{{Line: "s.e2e-error", Go: "err:" + kind, Desc: desc + ": " + why, Mode: "oracle-go", GoSpec: "pass", NoImpl: true, Trivial: true, Tags: []string{"e2e:base:" + kind}}}
+		}
+		ic, repoDir, lockPath, baseLayers = prep.IC, prep.RepoDir, prep.LockPath, prep.Layers
+		pubExtra = []build.Option{build.WithLockFile(lockPath)}
+	}
 	if e.Publish {
 		desc = "apko publish" + strings.TrimPrefix(desc, "apko build")
-		pub := gluelayerPublish(ic, repo, cliArchs)
+		pub := gluelayerPublishAt(ic, repo, repoDir, cliArchs, pubExtra...)
 		if pub.Err != nil {
 			kind := sbErrKind(pub.Err)
 			verdict := "pass"
@@ -426,10 +469,12 @@ func runSbomE2E(c *sbCase) []Step {
 			return []Step{{Line: "s.e2e-error", Go: "err:" + kind, Desc: desc, Mode: "oracle-go", GoSpec: verdict, NoImpl: true, Trivial: true, Tags: []string{"publish:err:" + kind}}}
 		}
 		// what was attached in the registry, and the files left in --sbom-path
-		steps := sbJudgeArtifacts(e.Archs, e.VCS, desc+" [SBOM attached to the manifest in the registry]", pub.attached(), "publish:")
-		return append(steps, sbJudgeArtifacts(e.Archs, e.VCS, desc+" [SBOM file in --sbom-path]", pub.files(), "publish-files:")...)
+		att, fl := pub.attached(), pub.files()
+		att.BaseLayers, fl.BaseLayers = baseLayers, baseLayers
+		steps := sbJudgeArtifacts(e.Archs, e.VCS, desc+" [SBOM attached to the manifest in the registry]", att, "publish:")
+		return append(steps, sbJudgeArtifacts(e.Archs, e.VCS, desc+" [SBOM file in --sbom-path]", fl, "publish-files:")...)
 	}
-	out := e2eBuild(ic, repo, E2EOpts{Archs: cliArchs, SBOM: true})
+	out := e2eBuildAt(ic, repo, repoDir, E2EOpts{Archs: cliArchs, SBOM: true, LockFile: lockPath})
 	if out.Err != nil {
 		kind := sbErrKind(out.Err)
 		verdict := "pass"
@@ -438,5 +483,25 @@ func runSbomE2E(c *sbCase) []Step {
 		}
 		return []Step{{Line: "s.e2e-error", Go: "err:" + kind, Desc: desc, Mode: "oracle-go", GoSpec: verdict, NoImpl: true, Trivial: true, Tags: []string{"e2e:err:" + kind}}}
 	}
-	return sbJudgeArtifacts(e.Archs, e.VCS, desc, sbFileArtifacts(out), "e2e:")
+	art := sbFileArtifacts(out)
+	art.BaseLayers = baseLayers
+	return sbJudgeArtifacts(e.Archs, e.VCS, desc, art, "e2e:")
+}
+
+// sbBaseTags: which shapes of a base-image build a step exercised.
+func sbBaseTags(art sbArtifacts, a, pre string, flat, own *sbFlat, dc *sbCase) []string {
+	nb := art.BaseLayers[a]
+	if nb == 0 {
+		return nil
+	}
+	tags := []string{pre + "base-image", fmt.Sprintf("%sbase-image:db-records:%d", pre, min(len(dc.Apks), 8))}
+	if len(sbSbomDir(flat)) > len(dc.FS) {
+		tags = append(tags, pre+"base-image:sbom-shipped-by-base-package")
+	}
+	if _, in := flat.files["etc/os-release"]; in {
+		if _, top := own.files["etc/os-release"]; !top {
+			tags = append(tags, pre+"base-image:os-release-only-in-base")
+		}
+	}
+	return tags
 }
